@@ -37,7 +37,9 @@ META = {
     'assumptions': ['handlers are atomic (reactor)'],
     'decided': ['D1 connect Deferred obligation', 'D2 endpoint walk',
                 'D3 loss sequence', 'D4 no iteration of live containers '
-                'while calling out', 'D5 proxy registry'],
+                'while calling out', 'D5 proxy registry',
+                'D6 callback / pending registries are per instance (no '
+                'class-level mutable container mutated through self)'],
     'undecided': ['reachability of addresses, address-list parsing details',
                   'real timing'],
 }
@@ -59,6 +61,8 @@ def run(ctx):
     loss_sequence(ctx)
     callout_loops(ctx)
     proxy_registry(ctx)
+    per_instance_registries(ctx)
+    ctx.floor('C09.D6', 3)
     ctx.floor('C09.D1', 4)
     ctx.floor('C09.D2', 4)
     ctx.floor('C09.D3', 4)
@@ -421,3 +425,79 @@ def proxy_registry(ctx):
                                               for a, b in p.cond[:5]]})
     if n == 0:
         raise AnalysisError('getRemoteObject constructs no proxy')
+
+
+# class-level containers that are shared on purpose (one named symbol each)
+SHARED_ON_PURPOSE = {
+    ('interface.DBusInterface', 'knownInterfaces'):
+        'documented process-wide cache of interfaces by name (C15 anchors)',
+}
+_MUT = {'append', 'extend', 'insert', 'remove', 'pop', 'clear', 'update',
+        'add', 'discard', 'setdefault', 'popitem', 'sort', 'reverse'}
+
+
+def per_instance_registries(ctx):
+    """A class attribute initialised to a mutable container and mutated in
+    place through an instance is shared by ALL instances (every proxy would
+    see every other proxy's disconnect callbacks).  Such a registry must be
+    (re)bound on the instance before it is mutated."""
+    prog = ctx.prog
+    n = 0
+    for c in prog.all_classes.values():
+        cont = {}
+        for name, v in c.attrs.items():
+            if isinstance(v, (ast.List, ast.Dict, ast.Set)) or (
+                    isinstance(v, ast.Call) and isinstance(v.func, ast.Name)
+                    and v.func.id in ('list', 'dict', 'set')):
+                cont[name] = v
+        # registries this property cares about, wherever they are declared
+        for name in ('_dcCallbacks', '_disconnectCBs', '_pendingCalls',
+                     '_weakProxies', '_signalRules'):
+            if name in c.attrs and name not in cont:
+                n += 1
+                ctx.ob('C09.D6', c.qualname, 'per-instance:%s' % name, True,
+                       'class-level placeholder is not a container',
+                       nontrivial=False)
+        for name in cont:
+            mutated = []
+            rebound = False
+            for k in prog.subclasses(c):
+                for fi in k.methods.values():
+                    for node in ast.walk(fi.node):
+                        if isinstance(node, ast.Call) and \
+                                isinstance(node.func, ast.Attribute) and \
+                                node.func.attr in _MUT and \
+                                isinstance(node.func.value, ast.Attribute) \
+                                and node.func.value.attr == name and \
+                                isinstance(node.func.value.value, ast.Name) \
+                                and node.func.value.value.id == 'self':
+                            mutated.append(fi.qualname)
+                        if isinstance(node, ast.Subscript) and \
+                                isinstance(node.ctx, (ast.Store, ast.Del)) \
+                                and isinstance(node.value, ast.Attribute) \
+                                and node.value.attr == name and \
+                                isinstance(node.value.value, ast.Name) and \
+                                node.value.value.id == 'self':
+                            mutated.append(fi.qualname)
+                        if isinstance(node, ast.Attribute) and \
+                                node.attr == name and \
+                                isinstance(node.ctx, ast.Store) and \
+                                isinstance(node.value, ast.Name) and \
+                                node.value.id == 'self':
+                            rebound = True
+            if not mutated:
+                continue
+            n += 1
+            key = (c.qualname, name)
+            if key in SHARED_ON_PURPOSE:
+                ctx.ob('C09.D6', c.qualname, 'per-instance:%s' % name, True,
+                       'shared on purpose: %s' % SHARED_ON_PURPOSE[key],
+                       nontrivial=False)
+                continue
+            ctx.ob('C09.D6', c.qualname, 'per-instance:%s' % name, rebound,
+                   'class attribute %s is a mutable container that %s '
+                   'mutate(s) in place through self and that is never bound '
+                   'on the instance: all instances share ONE container (a '
+                   'callback registered on one object runs for every '
+                   'object)' % (name, sorted(set(mutated))[:2]))
+    ctx.extra['class_level_containers_checked'] = n
